@@ -38,18 +38,18 @@ def body_fields_read(facts, b, adt=ARRAY, nested=True):
 
 def accessor_bodies(facts):
     """The public read API through which a handle *shows* its content: methods of Array that
-    hand out a reference into the array (`dimensions()`, `values()`), the Index impls and
-    PartialEq::eq."""
+    hand out a reference into the array (`dimensions()`, `values()`) and the Index impls.
+    (Equality is *checked against* this set by R17, so it must not define it.)"""
     out = []
     for b in facts.fns():
         if b.get("impl_self") != ARRAY:
             continue
         tr = b.get("impl_trait_def")
-        if tr in ("core::ops::index::Index", "core::cmp::PartialEq"):
+        if tr == "core::ops::index::Index":
             out.append(b)
         elif tr is None and b.get("reachable") and b.get("inputs") == ["&" + ARRAY]:
             o = b.get("output", "")
-            if o.startswith("&[") or o.startswith("&alloc::vec::Vec<"):
+            if o.startswith("&") and not o.startswith("&mut"):
                 out.append(b)
     return out
 
@@ -744,8 +744,7 @@ def r17_eq_fields(facts):
     # the content fields are those read by the plain accessors (not by eq itself)
     content = set()
     for b in accessor_bodies(facts):
-        if b.get("impl_trait_def") != "core::cmp::PartialEq":
-            content |= body_fields_read(facts, b)
+        content |= body_fields_read(facts, b)
     for b in targets:
         where = "%s:%d" % (F.rel(b["file"]), b["sp"][0])
         read = body_fields_read(facts, b)
